@@ -119,6 +119,17 @@ def run_case(seed, tier, rec, st):
             except Exception as e:
                 rec.count(f"schema_build_failed:{type(e).__name__}")   # totality is C20's subject
                 continue
+            if all_refs:
+                # history: the same model built again in this process describes the same documents
+                try:
+                    again = build_json_schema(T, dialect=dialect, all_refs=all_refs).to_dict()
+                except Exception as e:
+                    again = f"{type(e).__name__}: {e}"[:200]
+                rec.count("schemas_rebuilt")
+                if again != sd:
+                    rec.violation("schema-differs-between-repeated-builds", {"type": tsrc, "variant": vname, "first": common.short(sd, 600),
+                                  "second": common.short(again, 600), "family": fam.to_json()}, dict(facts, all_refs=all_refs))
+                    continue
             sd2 = json.loads(json.dumps(sd).replace("#/components/schemas/", "#/$defs/")) if dialect is OPEN_API_3_1 else sd
             if dialect is OPEN_API_3_1 and "components" in sd2:
                 pass
@@ -162,7 +173,13 @@ def run_case(seed, tier, rec, st):
                 continue
             for vname, validator, sd, all_refs in validators:
                 rec.evaluation()
-                errs = list(validator.iter_errors(doc))
+                try:
+                    errs = list(validator.iter_errors(doc))
+                except Exception as ex:
+                    # e.g. a $ref that names no definition: the schema cannot judge (so cannot accept) the document
+                    rec.violation(f"schema-unusable:{type(ex).__name__}", {"type": tsrc, "variant": vname, "document": common.short(doc, 300),
+                                  "error": str(ex)[:300], "schema": common.short(sd, 800), "family": fam.to_json()}, dict(facts, all_refs=all_refs))
+                    continue
                 if not errs:
                     rec.count("documents_valid")
                     rec.nontrivial((tsrc if t is None else tast.shape_hash(t), vname, repr(v)[:160]))
